@@ -639,6 +639,7 @@ fn run_history(case: &FaultCase, fault: Option<(FaultRule, bool, bool, bool, boo
     // (c') "a new writer can continue indexing normally": the transaction that failed is issued again, operation by
     // operation, on a new writer of the recovered index - on healthy storage it has to go through, commit included
     let mut base_model = models[found_j as usize].clone();
+    let mut reopened = false;
     if let Some((failed_idx, _, _)) = &failed_api {
         if found_j == j_ok {
             let opstamp = fresh.load_metas().or_fail("after_fault:load_metas_failed")?.opstamp;
@@ -666,8 +667,13 @@ fn run_history(case: &FaultCase, fault: Option<(FaultRule, bool, bool, bool, boo
                 w.wait_merging_threads().or_fail("after_fault:wait_merging_threads_failed")?;
             }
             rep.retried = true;
+            reopened = true;
         }
     }
+    // The retried operations may have gone through yet another Index handle (a ReopenIndex among them): what follows
+    // uses one handle opened now, not the earlier one whose view of the managed files is older (each handle assumes it
+    // is the only one that registers files - the known C10 limitation, not this check's subject)
+    let fresh = if reopened { Index::open(sd.clone()).or_fail("after_fault:index_open_failed")? } else { fresh };
     // (d) a new writer can be created and continues normally
     let mut w = crate::util::writer(&fresh, crate::util::WriterCfg::default()).or_fail("after_fault:new_writer_failed")?;
     let mut d = tantivy::TantivyDocument::new();
